@@ -36,7 +36,7 @@ def lock_state(f, mtext, init):
             return st
         n = f.nodes[e]
         if n["k"] == "CallExpr" and n.get("callee") in ("pthread_mutex_lock", "pthread_mutex_unlock"):
-            if mtext in q.no_casts(f.r(e)):
+            if mtext in q.no_casts(f.r(e)) or any(mtext in q.no_casts(q.xr(f, a_)) for a_ in q.call_args(f, e)):     # mutex pointer kept in a local
                 if n["callee"] == "pthread_mutex_lock":
                     return "bad:lock-while-held" if st == 1 else (1 if st == 0 else st)
                 return "bad:unlock-while-free" if st == 0 else (0 if st == 1 else st)
@@ -159,6 +159,8 @@ def run(prog, chk):
         for i, n in enumerate(f.nodes):
             if n["k"] == "MemberExpr" and n["m"] == "signaled":
                 p = f.node_pos(i)
+                if p is None:
+                    continue      # not evaluated here (an lvalue bound to a reference parameter of an inlined helper)
                 if sat.get(p) == 1:
                     chk.ok("C11.b", f, "access of signaled at line %s under the lock" % n["l"], f.where(i), "lock state 1")
                 else:
@@ -264,7 +266,10 @@ def run(prog, chk):
         ok = len(cs) == 1 and not others and "this->data" in q.no_casts(f.r(cs[0]))
         if ok and shape:
             rets = [i for i, n in enumerate(f.nodes) if n["k"] == "ReturnStmt" and n["c"]]
-            ok = len(rets) == 1 and q.no_casts(f.r(f.nodes[rets[0]]["c"][0])).endswith(shape + ")") and cs[0] in f.desc(rets[0])
+            # the returned value is true exactly when the primitive returned 0 (through any number of const locals)
+            kp = fin.key(f, cs[0])
+            ok = len(rets) == 1 and fin.eval_expr(f, f.nodes[rets[0]]["c"][0], {kp: 0}) == 1 and \
+                fin.eval_expr(f, f.nodes[rets[0]]["c"][0], {kp: 16}) == 0
         if ok:
             chk.ok("C11.f", f, "%s maps to %s" % (name, prim), "%s:%s" % (f.file, f.line), f.r(cs[0])[:60], nontrivial=False)
         else:
@@ -278,7 +283,10 @@ def run(prog, chk):
     if ok:
         for s in hs:
             atoms = fin.dominating_atoms(f, f.node_pos(s.node))
-            succ = any(a[0] != "case" and cr[0] in f.desc(a[0]) and (("!= 0" in fin.key(f, a[0]) and not a[1]) or ("== 0" in fin.key(f, a[0]) and a[1])) for a in atoms)
+            # an edge taken when pthread_create returned 0 and not when it failed (the result may sit in a const local)
+            kc = fin.key(f, cr[0])
+            succ = any(a[0] != "case" and fin.eval_expr(f, a[0], {kc: 0}) is not None and fin.eval_expr(f, a[0], {kc: 11}) is not None and
+                       bool(fin.eval_expr(f, a[0], {kc: 0})) == a[1] and bool(fin.eval_expr(f, a[0], {kc: 11})) != a[1] for a in atoms)
             free = any(a[0] != "case" and fin.key(f, a[0]) == "this->thread" and not a[1] for a in atoms)
             ok = ok and succ and free
     if ok:
